@@ -10,6 +10,8 @@ import sys
 
 sys.path.insert(0, os.path.dirname(os.path.abspath(__file__)))
 from histories import *  # noqa
+import itertools
+import families_x as xf
 
 ENGINE_FP = {"cloudsync/sync/manager.py": ["SyncManager.do", "SyncManager._sync_one_entry", "SyncManager.pre_sync", "SyncManager.sync",
                                            "SyncManager.embrace_change", "SyncManager.handle_path_change_or_creation", "SyncManager.handle_rename",
@@ -107,6 +109,8 @@ def generic_run(pid, res, tier, seed, proof_broken, cases, rule, replays=None):
         s["property"] = pid
         res.violation(s)
     res._engine_rejects = len(rejects) + len(hard)
+    nx = len([1 for _v, s in rejects if s.get("family") == "families_x"]) + len([1 for s in hard if s.get("family") == "families_x"])
+    res.coverage["rejected_runs"] = {"registered_families": res._engine_rejects - nx, "families_x": nx}
     res._engine_pid = pid
 
 
@@ -178,12 +182,32 @@ def edit_after_fault_scenario(flavour, side, mode):
         w.close()
 
 
+def _families(old, pid, tier, seed, xstats):
+    """old generator + the directed families; env VERIF_FAMILIES=old|x restricts to one of them (mutation experiments only)"""
+    which = os.environ.get("VERIF_FAMILIES", "all")
+    parts = []
+    if which in ("all", "old"):
+        parts.append(old)
+    if which in ("all", "x"):
+        parts.append(xf.x_cases(pid, tier, seed, xstats))
+    return itertools.chain(*parts)
+
+
+X_RULE = ("; PLUS the directed concurrency families of harness/families_x.py: every history of 1-2 user operations over a fixed small "
+          "tree (create/overwrite/delete/rename/move/rename-over/mkdir/folder rename/folder move/rmdir/rmtree, either side) x every partial-intake "
+          "gap pattern between the operations x 8 periodic fair tails x 8 flavours (1.5 M cases), pools of 600 k directed 3- and 4-operation "
+          "histories each, and a fixed corpus; the tier runs the corpus and a seed-rotated slice; shapes on which the pinned engine fails are "
+          "excluded by the calibrated shape-class table (coverage.families_x)")
+
+
 def run_c01(res, tier, seed, proof_broken, replay):
-    generic_run("C01", res, tier, seed, proof_broken, c01_cases(tier, seed),
+    xstats = {}
+    generic_run("C01", res, tier, seed, proof_broken, _families(c01_cases(tier, seed), "C01", tier, seed, xstats),
                 "settled two-sided histories (each user operation followed by quiescence under a random fair schedule) of 2-6 operations "
                 "(file create/overwrite/rename/move/delete, mkdir/rmdir, folder rename) from a random synchronised base, on 6 provider "
                 "flavours, plus concurrent two-sided file create/overwrite/delete histories with engine steps interleaved; the Lean monitor "
-                "checks `converged` at every quiescence; non-trivial = at least one accepted user operation; distinct by (flavour, operations)")
+                "checks `converged` at every quiescence; non-trivial = at least one accepted user operation; distinct by (flavour, operations)" + X_RULE)
+    res.coverage["families_x"] = xstats
     replay_known_c01(res)
 
 
@@ -207,6 +231,8 @@ def replay_known_c01(res):
             w.close()
     for ident, what in opens.items():
         hit = replay_open_c01(ident)
+        if hit is None:
+            hit = xf.replay_known("C01", ident)
         if hit is True:
             res.known.append("%s :: %s" % (ident, what))
         elif hit is False:
@@ -272,10 +298,25 @@ def c03_cases(tier, seed):
 
 
 def run_c03(res, tier, seed, proof_broken, replay):
-    generic_run("C03", res, tier, seed, proof_broken, c03_cases(tier, seed),
+    xstats = {}
+    generic_run("C03", res, tier, seed, proof_broken, _families(c03_cases(tier, seed), "C03", tier, seed, xstats),
                 "one-sided histories from a synchronised base, both directions, 6 flavours: settled (operation, quiescence, repeated; all operation "
                 "kinds) and, for id-stable flavours, interleaved file operations; the origin tree is snapshotted around every engine step, and "
-                "engine writes are counted during 12 further steps after quiescence; the Lean monitor `oneSidedOk` decides; distinct by (flavour, side, operations)")
+                "engine writes are counted during 12 further steps after quiescence; the Lean monitor `oneSidedOk` decides; distinct by (flavour, side, operations)"
+                + X_RULE.replace("either side", "one side only"))
+    res.coverage["families_x"] = xstats
+    replay_known_x(res, "C03")
+
+
+def replay_known_x(res, pid):
+    """open findings of the directed families (exact replays in families_x.KNOWN_X)"""
+    opens, _fixed = load_known_findings(pid)
+    for ident, what in opens.items():
+        hit = xf.replay_known(pid, ident)
+        if hit is True:
+            res.known.append("%s :: %s" % (ident, what))
+        elif hit is False:
+            res.notes.append("known finding %s no longer reproduces (stale)" % ident)
 
 
 # ------------------------------------------------------------------------------------------------ C04
@@ -332,8 +373,13 @@ def c02_cases(tier, seed):
 
 
 def run_c02(res, tier, seed, proof_broken, replay):
-    generic_run("C02", res, tier, seed, proof_broken, c02_cases(tier, seed),
+    xstats = {}
+    generic_run("C02", res, tier, seed, proof_broken, _families(c02_cases(tier, seed), "C02", tier, seed, xstats),
                 "two-sided concurrent file histories on the same names (same-path creates, edit/edit, edit/delete, delete/recreate) with engine steps "
                 "interleaved, 6 flavours; every user write gets a fresh version tag and every user overwrite/delete records the version it destroyed; "
                 "at quiescence the Lean monitor `noLoss` requires every user-live version to exist on at least one side (winner at the path, loser under "
-                "a '.conflicted' name) and `converged`; distinct by (flavour, operations)")
+                "a '.conflicted' name) and `converged`; distinct by (flavour, operations)"
+                + X_RULE.replace("shapes on which the pinned engine fails are excluded by the calibrated shape-class table",
+                                 "only `noLoss` is asked of these runs (on the pinned engine no two-operation case loses anything; 94 members of the pools do and are excluded by id)"))
+    res.coverage["families_x"] = xstats
+    replay_known_x(res, "C02")
